@@ -63,6 +63,14 @@ DEEP_OPS = [
     (r"\.len\(\)", ".len() - 1"), (r"\.is_empty\(\)", ".len() == 1"), (r"\.is_some\(\)", ".is_none()"), (r"\.is_none\(\)", ".is_some()"),
     (r"\bswap\(([^(),]+), ([^(),]+)\);", ";"),
 ]
+# fourth set: forgotten state - an argument replaced by the default value, an update made on a temporary copy, an index off by one
+ARG_OPS = [
+    (r"(?<=\()([a-z_]\w*)(?=[,)])", "Default::default()"), (r"(?<=, )([a-z_]\w*)(?=[,)])", "Default::default()"),
+    (r"(?<=\()&([a-z_]\w*)(?=[,)])", "&Default::default()"), (r"(?<=, )&([a-z_]\w*)(?=[,)])", "&Default::default()"),
+    (r"&mut ([a-z_][\w.]*)\b(?![\[(:<])", r"&mut \1.clone()"),
+    (r"\[([a-z_]\w*)\]", r"[\1 + 1]"), (r"\[([a-z_]\w*)\]", r"[\1 - 1]"),
+    (r"\b([a-z_][\w.]*)\.clone\(\)", "Default::default()"),
+]
 
 
 def crate_of(path):
@@ -158,13 +166,13 @@ def main():
     ap.add_argument("--only", default=None)
     ap.add_argument("--files", default=None, help="comma-separated override of the files to mutate")
     ap.add_argument("--added-by", default=None, help="a patch file: mutate only the lines it adds (REPO must be a scratch clone with the patch committed)")
-    ap.add_argument("--ops", default="base,pairs", help="comma-separated operator sets: base, pairs, deep")
+    ap.add_argument("--ops", default="base,pairs", help="comma-separated operator sets: base, pairs, deep, args")
     a = ap.parse_args()
     global SWAP_ADJ, DELETE, ADDED
     if a.added_by:
         ADDED = {l[1:].split("//")[0].strip() for l in open(a.added_by) if l.startswith("+") and not l.startswith("+++")} - {""}
     sets = a.ops.split(",")
-    ops = (OPS if "base" in sets else []) + (PAIR_OPS if "pairs" in sets else []) + (DEEP_OPS if "deep" in sets else [])
+    ops = (OPS if "base" in sets else []) + (PAIR_OPS if "pairs" in sets else []) + (DEEP_OPS if "deep" in sets else []) + (ARG_OPS if "args" in sets else [])
     SWAP_ADJ = "deep" in sets
     DELETE = "base" in sets
     for j in range(a.jobs):
